@@ -21,9 +21,15 @@ struct vf_in {
 	unsigned char j[NJ * B];
 	unsigned char fs[NFS * B];
 	unsigned int s_start, s_sequence, s_first;
+#if FEAT_CSUM
+	unsigned int csum[NJ];		/* "the checksum of journal block k" */
+#endif
 };
 VF_DECLARE_INPUT(struct vf_in, IN)
 #include "vf_input.inc"
+#define VF_CSUM_WORD(k) IN.csum[k]
+#define REF_CSUM(k) IN.csum[k]
+#define REF_SEQ0 IN.s_sequence
 #include "jgeom.h"
 #ifndef VF_REAL_REVOKE
 #define VF_NO_REVOKE	/* the revoke table is the specification stub of revoke_model.h (the real one: revoke_table.c) */
@@ -48,15 +54,20 @@ int main(void)
 		vf_durable[i] = IN.fs[i];
 #endif
 	}
+#if FEAT_CSUM
+	/* ASSUME: transaction ids in the log are not 0 (see scan.c) */
+	ASSUME(IN.s_sequence >= 1 && IN.s_sequence < 0xffffff00u);
+#endif
 	vf_make_journal(VF_FIRST, IN.s_sequence, VF_START);
 
 	ref_walk(IN.s_sequence);
-	ref_collect_revokes();
+	if (!ref_scan_error)
+		ref_collect_revokes();
 	/* ASSUME: the log walk ends within REF_MAXWALK header blocks */
 	ASSUME(ref_terminated);
 	/* BOUND: at most REF_MAXRB revoke blocks in committed transactions, each with at most REF_MAXREV records */
 	ASSUME(ref_bound_ok);
-	if (!ref_bad_revoke)
+	if (!ref_bad_revoke && !ref_scan_error)
 		ref_replay();
 
 #ifndef VF_NO_REVOKE
@@ -70,13 +81,20 @@ int main(void)
 
 	rc = jbd2_journal_recover(&vf_journal);
 
-	if (ref_bad_revoke)
+	if (ref_scan_error)
+		PROP(rc != 0, "a checksum-invalid descriptor/revoke block followed by a newer commit block makes recovery fail");
+	else if (ref_bad_revoke)
 		PROP(rc != 0, "a corrupt revoke block makes recovery fail");
+	else if (ref_data_csum_failed)
+		PROP(rc != 0, "a logged block failing its checksum makes recovery report failure");
 	else
 		PROP(rc == 0, "recovery succeeds");
+	PROP(vf_journal.j_failed_commit == (ref_failed_commit && !ref_scan_error ? IN.s_sequence + ref_failed_ord : 0),
+	     "failed commit reported iff a transaction that looks committed failed its checksum");
 	for (i = 0; i < NFS * B; i++)
-		PROP(vf_fsdev[i] == ref_fs[i], "filesystem after recovery == reference (committed, unrevoked, last image wins; everything else untouched)");
-	PROP(vf_journal.j_transaction_sequence == IN.s_sequence + ref_ncommits + 1,
+		PROP(vf_fsdev[i] == ref_fs[i], "filesystem after recovery == reference (transactions before the first missing or checksum-invalid commit, unrevoked, last image wins; everything else untouched)");
+	if (!ref_scan_error)
+	PROP(vf_journal.j_transaction_sequence == IN.s_sequence + ref_end_ord + 1,
 	     "the log restarts past the first uncommitted transaction id (stale blocks of that id can never be committed later)");
 	PROP(vf_j_writes == 0, "the journal is not written by recovery");
 	PROP(vf_j_oob_reads == 0 && vf_jheld == 0, "reads stay inside the journal, buffers are released");
